@@ -7,8 +7,9 @@
    attributes before the call and compares after it — also when the call raised — and again after overwriting the result).
    The NaN default of float variables is NumPy's conversion of None: in the theorems it is `cast n DFloat PNone` for an arbitrary
    conversion `cast`; that it is NaN is a fact of the table cast_tbl (C12_cast_tbl_defaults) which the correspondence check validates.
-   Documented exclusions: a NumPy-array OLD span with a repeated label (span_ok asks NoDup there): the call fails with KeyError when
-   that label is requested (C12_dup_arr_old_span_KeyError); list / tuple / range old spans with repeated labels ARE covered
+   Kept findings: a NumPy datetime64[ns] array OLD span (span_ok asks obj_stable): KeyError for every requested period that is in the
+   old span (C12_arr_datetime64ns_old_span_refuted); a NumPy-array OLD span with a repeated label (span_ok asks NoDup there): the call
+   fails with KeyError when that label is requested (C12_dup_arr_old_span_KeyError); list / tuple / range old spans with repeated labels ARE covered
    (first occurrence: old_span_ok holds, C12_dup_list_old_span_covered) — there the oracle checks every label that is not itself
    repeated.  The conversion of an unconvertible fill value (which exception class) and slice-valued locations (text labels on
    Period / Datetime old spans) are K-only.
@@ -420,3 +421,14 @@ Theorem C12_cast_tbl_defaults :
             /\ fill_cell cast_tbl n DObj PNone = Ret (CV PNone).
 Proof. exact rx_cast_tbl_defaults. Qed.
 Print Assumptions C12_cast_tbl_defaults.
+
+(* KEPT FINDING (the reindex face of C10's datetime64[ns] finding): span_ok asks obj_stable for a NumPy-array old span; with a
+   datetime64[ns] array as old span every requested period that IS in the old span makes the call raise KeyError *)
+Theorem C12_arr_datetime64ns_old_span_refuted :
+  wf rx_ns_state /\ NoDup (span_labels (c_span rx_ns_state))
+  /\ reindex_M no_pandas no_contains cast_tbl rx_ns_state ex_ns_arr 9 PNone None [] 100 = Raise KeyError
+  /\ option_map (fun s => map (fun kv => s_data (snd kv)) (c_vars s))
+                (match reindex_M no_pandas no_contains cast_tbl rx_ns_state (SList [LTs 5]) 9 PNone None [] 100 with Ret s => Some s | Raise _ => None end)
+     = Some [[CF FNan]].
+Proof. exact reindex_arr_datetime64ns_refuted. Qed.
+Print Assumptions C12_arr_datetime64ns_old_span_refuted.
